@@ -1,7 +1,9 @@
 """C18  Text codecs and numeric conversions are exact inverses and bounds-safe."""
 import base64
 import hashlib
+import math
 import re
+import struct
 import common as C
 import gen_codec
 
@@ -514,6 +516,69 @@ def spec_test(ctx, driver):
                       f"{l}\n# lean spec: {o}\n# python   : {w}\n", no_input=True)
 
 
+FLOAT_RX = re.compile(rb"[ \t\n\v\f\r]*([+-]?(?:[0-9]+\.?[0-9]*(?:[eE][+-]?[0-9]+)?|\.[0-9]+(?:[eE][+-]?[0-9]+)?))", re.S)
+
+
+def double_ref(line):
+    t = line.split()
+    if t[0] == "pd":
+        txt = unhx(t[1]).split(b"\0")[0]
+        m = FLOAT_RX.match(txt)
+        v = float(m.group(1)) if m else 0.0
+        return "pd " + struct.pack(">d", v).hex()
+    v = struct.unpack(">d", bytes.fromhex(t[1]))[0]
+    text = "%f" % v
+    return f"fd {text} " + struct.pack(">d", float(text)).hex()
+
+
+def double_lines(ctx):
+    rng = ctx.rng
+    n = 1500 if ctx.tier == "quick" else 30000
+    lines = []
+    for _ in range(n):
+        ws = rng.choice([b"", b"", b" ", b"\t\n "])
+        sign = rng.choice([b"", b"", b"-", b"+"])
+        k = rng.random()
+        ip = str(rng.getrandbits(rng.randrange(1, 70))).encode()
+        fp = str(rng.getrandbits(rng.randrange(1, 60))).encode()
+        body = ip if k < 0.3 else ip + b"." + fp if k < 0.6 else b"." + fp if k < 0.7 else ip + b"." if k < 0.75 else ip + b"." + fp + rng.choice([b"e", b"E"]) + rng.choice([b"", b"+", b"-"]) + str(rng.randrange(0, 320)).encode() if k < 0.95 else b""
+        tail = rng.choice([b"", b"", b"", b" 1", b"abc", b"..", b"-", b"\xff", b"\x00" + b"7"])
+        lines.append(f"pd {hx(ws + sign + body + tail)}")
+    for _ in range(n):
+        k = rng.random()
+        if k < 0.5:
+            v = rng.uniform(-1e6, 1e6)
+        elif k < 0.8:
+            v = math.ldexp(rng.random() - 0.5, rng.randrange(-60, 1000))
+        else:
+            v = rng.choice([0.0, -0.0, 1.0, -1.0, 0.5, 1e-7, 123456789.125, 1.7976931348623157e308, -1.7976931348623157e308, 5e-324, 0.1, 1e22, 1e23])
+        lines.append("fd " + struct.pack(">d", v).hex())
+    return lines
+
+
+def double_test(ctx, harness, lines=None):
+    """toDouble (member + static) and fromDouble are libc wrappers outside the integer theorems; they are driven
+    on the real code and compared with Python's float (both correctly rounded): harness vs reference only."""
+    lines = double_lines(ctx) if lines is None else lines
+    if not lines:
+        return
+    out, rc, err = C.run_lines(harness, lines, timeout=300)
+    ctx.cov["evaluations"] += len(out)
+    ctx.cov["double_lines_checked_against_python"] = len(lines)
+    bad = None
+    for k, l in enumerate(lines):
+        o = out[k] if k < len(out) else None
+        w = double_ref(l)
+        if o != w:
+            bad = (l, o, w)
+            break
+    ctx.log(f"double stream: {len(lines)} toDouble/fromDouble lines vs Python, {'1+' if bad else 0} mismatch(es)")
+    if bad:
+        l, o, w = bad
+        ctx.violation("impl-vs-reference on stream 'codec-double'", f"{l}\n# impl: {o if o is not None else '<no output: crash> ' + err[-800:]}\n# ref : {w}\n",
+                      signature="impl-vs-reference:" + l.split()[0])
+
+
 def check(ctx):
     ctx.assumptions += [
         "libc as specified by ISO C11 / glibc on LP64: vsnprintf with %d %u %lld %llu prints the decimal text (minus sign, no padding) and returns its length; "
@@ -534,6 +599,7 @@ def check(ctx):
             singles += [f"b64 {hx(rand_b64(ctx.rng))}" for _ in range(20000)] + [f"dec {hx(rand_utf8ish(ctx.rng))}" for _ in range(20000)]
         run_streams(ctx, harness, C.driver_path(DRIVER), batches, singles, C.load_corpus(ctx.prop))
         spec_test(ctx, C.driver_path(DRIVER))
+        double_test(ctx, harness)
     finally:
         try:
             harness.unlink()
@@ -546,7 +612,9 @@ def replay(ctx, path):
     gen(ctx)
     harness = C.build_harness(ctx, "codec", SOURCES)
     C.lake_build([DRIVER])
-    diffs = C.differential(ctx, harness, C.driver_path(DRIVER), [h], reference, C.default_eq)
+    double_test(ctx, harness, [l for l in h if l.split()[0] in ("pd", "fd")])
+    h = [l for l in h if l.split()[0] not in ("pd", "fd")]
+    diffs = C.differential(ctx, harness, C.driver_path(DRIVER), [h], reference, C.default_eq) if h else []
     for d in diffs:
         print(d.text())
         ctx.violation(f"replay: {d.kind}", d.text())
